@@ -13,6 +13,7 @@ direct: identical copy => nothing; compatible edits => nothing; each incompatibl
 from __future__ import annotations
 
 import copy
+import json
 import os
 import shutil
 import signal
@@ -22,33 +23,38 @@ from pathlib import Path
 
 ID = "C11"
 LEVEL_TEXT = (
-    "Theorems over all object stores (arbitrary graphs of modules, classes, functions, attributes and aliases with resolved / "
-    "unresolvable / cyclic targets, inherited members, __all__, imports, explicit public flags) about a model of "
-    "find_breaking_changes that mirrors the seen_paths guard: a package compared with itself reports nothing; any "
-    "compatibility simulation between old and new (covers added members, added optional keyword-only parameters, arbitrary "
-    "changes outside the publicly reachable part) reports nothing; every report stems from a pair reachable from the roots "
-    "through public members and alias targets only, and a reported removal is a public member of such an object; every local "
-    "incompatibility (removed public member, kind change, removed base, changed attribute value, C10 parameter breakages, lost "
-    "return annotation) of a publicly reachable object is reported whenever the old->new counterpart map is consistent (the "
-    "decidable known-gap predicate of finding C11-F2, refuted without it by a computed witness); unresolvable targets never "
-    "raise and, without cyclic targets, the traversal is total with fuel = number of old objects + 1; a cyclic target aborts "
-    "the comparison (finding C11-F1, computed witness); exit code 0 iff no breakage. The model is tied to diff.py / mixins.py "
-    "on every run by comparing (breakage kind, object path, parameter) multisets and per-member is_public on generated "
-    "packages x edit scripts, and the CLI exit code on throw-away git repositories.")
+    "17 theorems (all closed under the global context) over all object stores -- arbitrary graphs of modules, classes, functions, "
+    "attributes and aliases with resolved / unresolvable / cyclic targets, inherited members, __all__, imports and explicit public "
+    "flags -- about a model of find_breaking_changes that mirrors the seen_paths guard: a package compared with itself reports "
+    "nothing; any compatibility extension (members added anywhere, parameters added that leave C10's fdiff empty -- proved for optional "
+    "keyword-only ones --, arbitrary changes outside the publicly reachable part) reports nothing; every report stems from a pair "
+    "reachable from the roots through public members and alias targets only, and a reported removal is a public member of such an "
+    "object (private and imported-but-not-exported objects are never reported); every local incompatibility of a reached object with "
+    "its counterpart (removed public member, kind change, removed base, changed attribute value, C10 parameter breakages) is reported "
+    "whenever the old->new counterpart map is consistent (decidable known-gap predicate of finding C11-F2; refuted without it by a "
+    "computed witness); unresolvable targets never raise and, on well-formed stores without cyclic targets, the traversal terminates "
+    "with a result for fuel = number of old objects + 1 (seen_paths is the measure); a cyclic target aborts the comparison (finding "
+    "C11-F1, computed witness); exit code 0 iff the comparison completed and reported nothing; is_public equals its documented ladder "
+    "except under an empty __all__ (finding C11-F3). The model is tied to diff.py / mixins.py / cli.py on every run by comparing "
+    "(breakage kind, object path, parameter) multisets and per-member is_public on generated packages x edit scripts, an exhaustive "
+    "is_public ladder (900 input combinations), and the CLI exit code on throw-away git repositories; the property itself is evaluated "
+    "directly on the implementation against an independent reading of the documented public/private rules.")
 LEVEL_NOTE = (
-    "Trusted: Coq kernel, extraction, the harness abstraction Griffe tree -> store (object identity = path; alias.target outcome, "
-    "inherited_members and MRO are read from Griffe, not re-modelled: C06/C07 cover them), value/base/default equality interned by "
-    "Python ==. Breakages are modelled as a multiset (generator order is not modelled). Parameter rules are C10's fdiff, reused. "
-    "The is_public ladder is hand-modelled (no translator) and compared with the implementation exhaustively over its inputs. "
-    "Breakage.explain() styles are exercised for crashes only. Known findings: F1 cyclic re-export raises CyclicAliasError, "
-    "F2 seen_paths suppresses the comparison of a re-export whose old target was already compared, F3 empty __all__ is ignored "
-    "by is_public contrary to its docstring.")
+    "Trusted: Coq kernel, extraction, the harness abstraction Griffe tree -> store (object identity = path, asserted per case; the outcome "
+    "of alias.target, inherited_members and the MRO are read from Griffe, not re-modelled: C06/C07 cover them), value/base/default equality "
+    "interned by Python ==. Breakages are modelled as a multiset (generator order is not modelled); parameter rules are C10's fdiff, reused. "
+    "The is_public ladder is hand-modelled (no translator) and compared with the implementation exhaustively over its inputs every run. "
+    "The silence theorems identify old and new objects of the unchanged part by index (a renaming of the new store). Completeness is stated "
+    "for counterpart pairs; a public re-export whose target disappeared while the import stayed is unresolvable in new and therefore skipped, "
+    "as the property demands, so that removal is not reported. Breakage.explain() styles are exercised for crashes only. Known findings: F1 "
+    "cyclic re-export raises CyclicAliasError, F2 seen_paths (old paths only) suppresses the comparison of a re-export / inherited member "
+    "whose old target was already compared, F3 empty __all__ is ignored by is_public contrary to its docstring.")
 MODEL = ("Model.C11_apidiff", "run_C11")
 COQ_TARGETS = ["Proofs/C11_apidiff.vo"]
 RULE = ("seeded random packages (2-5 modules incl. private modules and a sub-package; functions with C10-style signatures, classes with "
         "local/imported bases and public/private/special members, attributes, re-export imports incl. chains, module imports, dangling, "
-        "external and cyclic ones, __all__ absent / subset / empty) x edit scripts of 1-3 edits from a catalogue of 21 edits applied at "
-        "random public/private locations; plus identical copies and post-load `public` flag overrides. A case is non-trivial when the "
+        "external and cyclic ones, __all__ absent / subset / empty) x edit scripts of 1-3 edits from a catalogue of 22 edits applied at "
+        "random public/private locations; plus identical copies, post-load `public` flag overrides and the corpus/C11 regression packages. A case is non-trivial when the "
         "edit script is non-empty or aliases are present; distinct by the rendered (old, new) sources")
 TRUSTED = ["harness abstraction of loaded Griffe trees into model stores (harness/props/c11.py:Abstraction)"]
 ASSUMPTIONS = ["object identity is the object path (asserted by the abstraction on every case)",
@@ -839,6 +845,14 @@ class Case:
         self.fo, self.fn = files_of(old_spec), files_of(new_spec)
         self.json = {"stream": stream, "old": self.fo, "new": self.fn, "edits": [m["edit"] for m in metas], "overrides": list(overrides)}
 
+    @classmethod
+    def from_files(cls, ctx, old_files, new_files, stream):
+        c = cls.__new__(cls)
+        c.ctx, c.old_spec, c.new_spec, c.metas, c.stream, c.overrides = ctx, None, None, [], stream, ()
+        c.fo, c.fn = dict(old_files), dict(new_files)
+        c.json = {"stream": stream, "old": c.fo, "new": c.fn, "edits": [], "overrides": []}
+        return c
+
     def load(self, k):
         d = self.ctx.scratch / f"case{k % 8}"
         write_tree(d / "old", self.fo)
@@ -913,6 +927,7 @@ def evaluate(ctx, c, status, ibs, mstatus, mbs, wf, consistent, exitc, ao, an, l
     ctx.observe("model_status", mstatus)
     ctx.observe("n_breakages", min(len(ibs), 8))
     ctx.observe("store_size", 10 * (len(ao.nodes) // 10))
+    ctx.observe("counterparts", ("consistent" if consistent else "inconsistent") + ":" + c.stream)
     for m in metas:
         ctx.observe("edit", m["edit"])
     for b in ibs:
@@ -951,7 +966,7 @@ def evaluate(ctx, c, status, ibs, mstatus, mbs, wf, consistent, exitc, ao, an, l
             ok_code = path in (reach_old_code if k == "OBJECT_REMOVED" else reach_new_code)
             ctx.property_failure(c.json, {"reported object is not publicly reachable": [k, path]}, finding="C11-F3" if ok_code else None)
             ctx.observe("private_reported", "C11-F3" if ok_code else "UNEXPLAINED")
-    if not metas and not c.overrides and ibs:
+    if c.fo == c.fn and not c.overrides and ibs:
         ctx.property_failure(c.json, {"identical copy reported": ibs[:5]})
     if not metas:
         return
@@ -1177,6 +1192,11 @@ def explore(ctx):
     tally = Counter()
     witnesses(ctx)
     ladder_check(ctx)
+    corpus = []
+    for f in sorted((Path(__file__).resolve().parents[2] / "corpus" / "C11").glob("*.json")):
+        d = json.loads(f.read_text())
+        corpus.append(Case.from_files(ctx, d["old"], d["new"], "corpus"))
+    run_cases(ctx, corpus, tally)
     n = ctx.budget(1100, 12000)
     cases = [make_case(ctx, STREAMS[k % len(STREAMS)]) for k in range(n)]
     first = None
